@@ -71,6 +71,8 @@ def classify_problem(r, text, structured):
             return ("C14",) + style if style else "C14"
         if structured and ("token" in text or "key-value inserted" in text):
             return ("C13", "C10")        # placement / terminator of the structured reference: both properties state it
+        if structured and s["msg"] in ("validref", "validref0", "validrefmax"):
+            return ("C13", "C10")        # in structured mode the reference is the key-value; a token in the message does not count
         if s["msg"] == "custom":
             return ("C12", "C10")
         return "C10"
